@@ -523,7 +523,7 @@ func (e *Engine) boundedComplements(prop string, thorough bool, res *thoroughRes
 		// the inductive cache invariant and the overlap search (B-tree enumeration) are not under contract: this
 		// stand-in runs on every tier of C08 and of C01 (for the "start <= key" half of routing)
 		report(e.boundedOverlay("c08-cache", "c08_cache_test.go.txt", ".", "TestBoundedC08",
-			"every sequence of up to 3 put/del operations over 40 regions (2 prefix-related tables x 10 ranges over keys \"\",a,b,c x 2 ids) on the real keyRegionCache against a brute-force interval model; 14 lookups after every step against brute-force containment"),
+			"every sequence of up to 3 put/del operations over 36 regions (3 tables, one of them namespaced, two prefix-related x 6 ranges over keys \"\",a,b x 2 ids) on the real keyRegionCache against a brute-force interval model; 18 lookups after every step against brute-force containment"),
 			"c08-cache", "the location cache disagrees with the brute-force interval model")
 	}
 	return bounded
